@@ -66,12 +66,12 @@ Theorem C11_mpint_ssh_roundtrip : forall z b s, 0 <= z -> zlen (ssh_payload z) <
 Proof. exact parse_compose_ssh_mpint. Qed.
 
 (* timestamps: the instant survives compose -> parse (seconds: 4 or 8 bytes; milliseconds: 8 bytes; sentinel) *)
-Theorem C11_timestamp_seconds : forall w s b p sfx, In w [4; 8] -> 0 <= s < 4294967296 -> s <> 2 ^ (8 * w) - 1 ->
+Theorem C11_timestamp_seconds : forall w s b p sfx, In w [4; 8] -> 0 <= s <= dt_max -> s < 256 ^ w -> s <> 2 ^ (8 * w) - 1 ->
   compose_timestamp false w (Some {| secs := s; micros := 0 |}) = Ok b ->
   parse_timestamp false w (p ++ b ++ sfx) (zlen p) = Ok (Some {| secs := s; micros := 0 |}, w).
 Proof. exact ts_roundtrip_seconds. Qed.
 
-Theorem C11_timestamp_millis : forall s ms b p sfx, 0 <= s < 4294967296 -> 0 <= ms < 1000 ->
+Theorem C11_timestamp_millis : forall s ms b p sfx, 0 <= s <= dt_max -> 0 <= ms < 1000 ->
   compose_timestamp true 8 (Some {| secs := s; micros := ms * 1000 |}) = Ok b ->
   parse_timestamp true 8 (p ++ b ++ sfx) (zlen p) = Ok (Some {| secs := s; micros := ms * 1000 |}, 8).
 Proof. exact ts_roundtrip_millis. Qed.
@@ -81,6 +81,10 @@ Theorem C11_timestamp_forever : forall msf w b p sfx, In w [4; 8] ->
 Proof. exact ts_roundtrip_none. Qed.
 
 (* ---- the pinned tree (before the fix: commits) violated the property ---------------------------------------- *)
+Theorem C11_pinned_timestamp_mask_refuted :
+  parse_timestamp_orig false 8 (be_enc 8 4294967296) 0 = Ok (Some {| secs := 0; micros := 0 |}, 8).
+Proof. exact ts_orig_mask_refuted. Qed.
+
 Theorem C11_pinned_3byte_truncation_refuted : compose_numeric_orig Network 3 16777216 = Ok [x00; x00; x00].
 Proof. exact compose_numeric_orig_truncates. Qed.
 
